@@ -66,6 +66,13 @@ def plans(run, rt, quick):
         "two shifts of one frame": df.a.shift(1) + df.a.shift(2),
         "shift and diff": df.a.shift(1) + df.a.diff(1),
         "broadcast join partition subset": df.merge(rt.dx.from_pandas(pdf.iloc[:3], npartitions=1), on="b", broadcast=True).partitions[[2]],
+        # partition selections of broadcast joins of every kind (non-inner joins split the large side per partition)
+        "broadcast left join partitions[[3]]": df.merge(rt.dx.from_pandas(pdf.iloc[:5], npartitions=2), on="b", how="left", broadcast=True, shuffle_method="tasks").partitions[[3]],
+        "broadcast left join partitions[[1,0]]": df.merge(rt.dx.from_pandas(pdf.iloc[:5], npartitions=2), on="b", how="left", broadcast=True, shuffle_method="tasks").partitions[[1, 0]],
+        "broadcast right join partitions[[2,3]]": rt.dx.from_pandas(pdf.iloc[:5], npartitions=2).merge(df, on="b", how="right", broadcast=True, shuffle_method="tasks").partitions[[2, 3]],
+        "broadcast inner join partitions[[3,1]]": df.merge(rt.dx.from_pandas(pdf.iloc[:5], npartitions=2), on="b", how="inner", broadcast=True, shuffle_method="tasks").partitions[[3, 1]],
+        "broadcast left join tail": df.merge(rt.dx.from_pandas(pdf.iloc[:5], npartitions=2), on="b", how="left", broadcast=True, shuffle_method="tasks").tail(2, compute=False),
+        "hash join partitions[[2]]": df.merge(rt.dx.from_pandas(pdf, npartitions=3), on="b", broadcast=False, shuffle_method="tasks").partitions[[2]],
         "head": df.head(3, npartitions=2, compute=False),
         "tail": df.tail(3, compute=False),
     }
